@@ -150,6 +150,11 @@ var assetNames = []string{"USD", "EUR/2"}
 
 const cfgAccount = "cfg"
 
+// largeCache: a compilation cache size no run can fill (a run never has that many distinct
+// script texts), i.e. "no eviction". Not the production default of 1024: gcache pre-allocates
+// its tables, and every simulated process death leaves goroutines behind that pin them.
+const largeCache = 96
+
 func acctName(i int) string {
 	if i < 0 {
 		return "world"
